@@ -243,6 +243,21 @@ def try_run(chk, found, what, text, opts, ignore, check_sites=True):
     cname = mol.conformation_names[0]
     obs, _ = c01.observed_sites(mol.conformations[cname])
     missing = list((exp.get(int(cname[:-1]), {}) - obs).elements()) if exp.get(int(cname[:-1])) else []
+    if not missing and exp.get(int(cname[:-1])):
+        # "reported" means: titratable (unless disulfide-bridged) and listed in the summary
+        _, flags = c01.observed_sites(mol.conformations[cname])
+        _, bridged = c01.expected_sites(text, ignore)
+        rows = {lab for lab, _pk, _mp in c01.summary_rows(structures.pka_text(mol))}
+        for k, g in flags.items():
+            if k in exp[int(cname[:-1])] and k not in bridged.get(int(cname[:-1]), set()):
+                if not g.titratable:
+                    found.append((f"site-not-titrated-after-removal:{k[0]}", f"{what}: {c01.label_of(*k[:3])} keeps its defining atom but is no longer titratable (not reported)",
+                                  {"case": what, "options": opts, "site": k, "pdb_text": text if len(text) < 150000 else None}))
+                    break
+                if g.label not in rows and not g.coupled_titrating_group:
+                    found.append((f"site-not-in-summary-after-removal:{k[0]}", f"{what}: {c01.label_of(*k[:3])} keeps its defining atom but has no summary row",
+                                  {"case": what, "options": opts, "site": k, "pdb_text": text if len(text) < 150000 else None}))
+                    break
     if missing:
         k = missing[0]
         found.append((f"site-dropped-after-removal:{k[0]}", f"{what}: {c01.label_of(*k[:3])} keeps its defining atom but is no longer among the groups",
